@@ -216,6 +216,109 @@ pub fn check_transient(s: &Subject, api: Api) -> (Vec<(String, String)>, u64) {
     (bad, n)
 }
 
+/// async only: a lookup future is dropped while the stream answers Pending (cancellation), then the same
+/// lookup is issued again; the retry must return the tile and read inside its range
+pub fn check_cancellation(s: &Subject) -> (Vec<(String, String)>, u64) {
+    use crate::env::{Answer, Chooser, Kind};
+    use std::future::Future;
+    use std::task::{Context, Poll};
+    struct PendingAt {
+        at: usize,
+        short_before: Option<usize>,
+    }
+    impl Chooser for PendingAt {
+        fn choose(&mut self, idx: usize, _: Kind, _: usize, _: bool) -> Answer {
+            if idx == self.at {
+                Answer::Pending(1, 0)
+            } else if idx + 1 == self.at {
+                match self.short_before {
+                    Some(n) => Answer::Short(n),
+                    None => Answer::Full,
+                }
+            } else {
+                Answer::Full
+            }
+        }
+    }
+    let mut bad = Vec::new();
+    let Ok(p) = read_archive(&s.bytes, 1 << 22) else { return (bad, 0) };
+    let ids: Vec<u64> = p.tiles.keys().copied().take(3).collect();
+    if ids.len() < 2 {
+        return (bad, 0);
+    }
+    let data_off = p.header.data_offset;
+    // number of calls: open, then one complete lookup of ids[0]
+    let probe = Handle::new(s.bytes.clone(), Box::new(DefaultChooser));
+    let Ok(Ok(mut pm0)) = catch(|| block_on(PMTiles::from_async_reader(probe.asyn()))) else { return (bad, 0) };
+    let _ = block_on(pm0.get_tile_by_id_async(ids[0]));
+    let after_first = probe.calls();
+    let _ = block_on(pm0.get_tile_by_id_async(ids[1]));
+    let after_second = probe.calls();
+    let mut n = 0u64;
+    for at in after_first..after_second + 1 {
+        for short_before in [None, Some(1usize), Some(3)] {
+            n += 1;
+            let hd = Handle::new(s.bytes.clone(), Box::new(PendingAt { at, short_before }));
+            let r = catch(|| -> Result<Vec<(u64, Result<Option<Vec<u8>>, String>, Vec<(u64, u64)>)>, String> {
+                let mut pm = block_on(PMTiles::from_async_reader(hd.asyn())).map_err(|e| e.to_string())?;
+                let mut out = Vec::new();
+                let _ = block_on(pm.get_tile_by_id_async(ids[0])).map_err(|e| e.to_string())?;
+                // poll the second lookup until the stream says Pending, then drop the future
+                {
+                    let waker = futures::task::noop_waker();
+                    let mut cx = Context::from_waker(&waker);
+                    let mut fut = Box::pin(pm.get_tile_by_id_async(ids[1]));
+                    let mut polls = 0;
+                    loop {
+                        polls += 1;
+                        match fut.as_mut().poll(&mut cx) {
+                            Poll::Ready(_) => break,
+                            Poll::Pending => break,
+                        }
+                        #[allow(unreachable_code)]
+                        if polls > 4 {
+                            break;
+                        }
+                    }
+                    drop(fut);
+                }
+                hd.clear_log();
+                for id in [ids[1], ids[0], ids[1]] {
+                    let g = block_on(pm.get_tile_by_id_async(id)).map_err(|e| e.to_string());
+                    out.push((id, g, read_ranges(&hd.log())));
+                    hd.clear_log();
+                }
+                Ok(out)
+            });
+            match r {
+                Ok(Ok(lookups)) => {
+                    for (k, (id, got, rr)) in lookups.iter().enumerate() {
+                        let (o, l) = p.tiles[id];
+                        let want = (data_off + o, data_off + o + u64::from(l));
+                        let tag = format!("[async, lookup future dropped at Pending call {at}, short {short_before:?}] lookup #{k} of id {id}");
+                        for r in rr {
+                            if r.0 < want.0 || r.1 > want.1 {
+                                bad.push(("lookup-after-cancellation-reads-outside-tile".to_string(), format!("{tag} read [{},{}), the tile occupies [{},{})", r.0, r.1, want.0, want.1)));
+                            }
+                        }
+                        match got {
+                            Ok(Some(b)) if b.as_slice() == &s.bytes[want.0 as usize..want.1 as usize] => {}
+                            Err(_) => {}
+                            other => bad.push(("lookup-after-cancellation-wrong-bytes".to_string(), format!("{tag} returned {:?}", other.as_ref().map(|o| o.as_ref().map(|b| crate::report::brief(b)))))),
+                        }
+                    }
+                }
+                Ok(Err(_)) => {}
+                Err(pn) => bad.push(("lookup-after-cancellation-panic".to_string(), pn)),
+            }
+            if bad.len() > 6 {
+                return (bad, n);
+            }
+        }
+    }
+    (bad, n)
+}
+
 pub fn subjects(thorough: bool) -> Vec<Subject> {
     let mut v = Vec::new();
     for c in COMPS {
@@ -223,6 +326,17 @@ pub fn subjects(thorough: bool) -> Vec<Subject> {
         v.push(Subject { name: format!("lib-small/{}", cname(c)), bytes: write_lib(&l, Api::Sync).unwrap(), case: json!({"lib":"small","comp":cname(c)}) });
         let l = scale_family(2, 40, c);
         v.push(Subject { name: format!("lib-alternating-40/{}", cname(c)), bytes: write_lib(&l, Api::Async).unwrap(), case: json!({"lib":"alternating","comp":cname(c)}) });
+    }
+    // metadata larger than the buffers on the read path (8 KiB BufReader, 4 KiB codec buffers, 64 KiB), not a
+    // multiple of any of them, directly followed by the tile data
+    for c in COMPS {
+        for size in [9_000usize, 20_000, 70_001] {
+            let mut l = small_logical(c);
+            // incompressible text so that the stored section is large for every codec
+            let noise: String = crate::common::xorshift_bytes(size as u64, size).iter().map(|b| (b'a' + b % 26) as char).collect();
+            l.meta.insert("noise".into(), serde_json::Value::String(noise));
+            v.push(Subject { name: format!("lib-big-meta-{size}/{}", cname(c)), bytes: write_lib(&l, Api::Sync).unwrap(), case: json!({"lib":"big-meta","size":size,"comp":cname(c)}) });
+        }
     }
     for c in [Compression::None, Compression::GZip] {
         let n = crossing(1, c, &window_logical_entries) + 10;
@@ -259,7 +373,7 @@ fn ranges_for(s: &Subject) -> Vec<Rng> {
 pub fn run(tier: &str) -> i32 {
     let rep = Report::new("C20", tier, "exploration");
     let thorough = rep.thorough();
-    rep.rule("library-written archives (small, alternating duplicates, leaf spill; 4 compressions) and the foreign product of C03 (section permutations so that tile data directly follows each directory/metadata section, gaps filled with a sentinel, depth 1-3, 4 compressions), opened in full and with three range filters through the sync and the async reader over a recording stream, followed by a lookup of EVERY addressed id and of absent neighbours; oracle on the bytes returned by the stream: open touches only header, metadata, root and leaf sections and never the tile-data section; a lookup's returned ranges unite to exactly the tile's range; absent ids read nothing; additionally sessions of lookups with ONE transient stream failure at every call index (optionally after a 1- or 2-byte short read): every later Ok lookup returns the tile and reads inside its range; non-trivial = archives with >= 1 tile");
+    rep.rule("library-written archives (small, alternating duplicates, leaf spill; 4 compressions) and the foreign product of C03 (section permutations so that tile data directly follows each directory/metadata section, gaps filled with a sentinel, depth 1-3, 4 compressions), opened in full and with three range filters through the sync and the async reader over a recording stream, followed by a lookup of EVERY addressed id and of absent neighbours; oracle on the bytes returned by the stream: open touches only header, metadata, root and leaf sections and never the tile-data section; a lookup's returned ranges unite to exactly the tile's range; absent ids read nothing; additionally sessions of lookups with ONE transient stream failure at every call index (optionally after a 1- or 2-byte short read): every later Ok lookup returns the tile and reads inside its range; and async sessions in which a lookup future is dropped at a Pending answer and the lookup is retried; non-trivial = archives with >= 1 tile");
     rep.assume("how often or in how many calls a section is read is not constrained; only which bytes are returned to the library");
     let subs = subjects(thorough);
     let res: Vec<(usize, Api, Rng, Vec<(String, String)>)> = subs
@@ -295,6 +409,14 @@ pub fn run(tier: &str) -> i32 {
         .enumerate()
         .flat_map_iter(|(i, s)| APIS.into_iter().map(move |api| { let (b, n) = check_transient(s, api); (i, api, b, n) }).collect::<Vec<_>>())
         .collect();
+    let cres: Vec<(usize, Vec<(String, String)>, u64)> = small.par_iter().enumerate().map(|(i, s)| { let (b, n) = check_cancellation(s); (i, b, n) }).collect();
+    rep.count("cancellation_sessions", cres.iter().map(|t| t.2).sum());
+    rep.eval(cres.iter().map(|t| t.2).sum());
+    for (i, bad, _) in cres {
+        for (k, d) in bad.into_iter().take(3) {
+            rep.violation(format!("{k}/async"), format!("[{}] {d}", small[i].name), json!({"kind":"lazy","subject":small[i].name,"api":"async","archive":small[i].case,"range":"cancellation"}));
+        }
+    }
     rep.count("transient_failure_sessions", tres.iter().map(|t| t.3).sum());
     rep.eval(tres.iter().map(|t| t.3).sum());
     for (i, api, bad, _) in tres {
@@ -320,6 +442,7 @@ pub fn replay(case: &Value) -> Vec<String> {
     for api in APIS {
         out.extend(check_transient(s, api).0.into_iter().map(|(k, d)| format!("{k}: {d}")));
     }
+    out.extend(check_cancellation(s).0.into_iter().map(|(k, d)| format!("{k}: {d}")));
     let _ = Spec::from_json(&case["archive"]);
     out
 }
